@@ -11,6 +11,7 @@ EXPLANATION = (
     "(R-C04-reason-tables) every reason(u8)→enum / code(enum)→u8 pair is a mutual inverse on the listed rows; "
     "(R-C04-varint-siblings) the hand-copied framing helpers (length, len_len, write_remaining_length, check, parse_fixed_header, read_*/write_* primitives) that are identical on the pinned tree stay signature-equal (thresholds, masks, shift limit). "
     "(R-C04-flag-bits) the four copies extract/set the same bits of the CONNECT flags, PUBLISH header flags, SUBSCRIBE options and CONNACK flags (masks normalised over shift spelling), and in the CONNECT family every field the reader extracts is one the writer sets and vice versa; "
+    "(R-C04-prop-accounting) in every MQTT 5 properties reader each variable-length value read contributes its own len() plus a 2-byte prefix to the consumed-bytes counter exactly once; "
     "NOT decided (the bulk of the statement): decode(encode(p)) == p, size() == bytes written, exact consumption for all packet values.")
 ASSUMPTIONS = ["rustc MIR construction and constant evaluation are correct", "rules/mqtt5_properties.json transcribes table 2-4 of the OASIS MQTT 5.0 specification"]
 TECHNIQUE = "static analysis: handler-table extraction from MIR switch arms, constant provenance, writer/reader wire-type sequences, sibling signature comparison"
@@ -120,6 +121,10 @@ def run(ctx):
     ctx.guarded("R-C04-prop-table", cross_crate, ctx, tables)
     ctx.guarded("R-C04-varint-siblings", varint_siblings, ctx)
     ctx.guarded("R-C04-flag-bits", flag_bits, ctx)
+    for name in ("rumqttd-v5", "rumqttc-v5"):
+        crate, pre, entry, ptype = COPIES[name]
+        ctx.guarded("R-C04-prop-accounting", prop_accounting, ctx, ctx.progs[crate], name, pre)
+        ctx.guarded("R-C04-prop-accounting", prop_len_accounting, ctx, ctx.progs[crate], name, pre)
 
 
 # ------------------------------------------------------------------------------------------
@@ -572,3 +577,141 @@ def flag_bits(ctx):
                           "%s: bits extracted by the readers but never set by the writers: %s; set by the writers but never extracted: %s" % (name, unmatched_r, unmatched_w))
         else:
             ctx.ok(rule, "%s::connect" % name, "every CONNECT flag field read (%s) is written (constants %s, shifts %s) and vice versa" % (sorted(fields), sorted(consts), sorted(shl)))
+
+
+# ------------------------------------------------------------------------------------------
+# R-C04-prop-accounting: bytes consumed by a properties reader are counted once each
+
+def prop_accounting(ctx, prog, name, pre):
+    """MQTT 5 property readers track how many of the announced property bytes they consumed in a local counter.
+    Every variable-length value read in an arm (read_mqtt_string / read_mqtt_bytes) must contribute its own len()
+    to the counter exactly once, with a 2-byte length prefix each; otherwise the reader stops early or runs into
+    the payload whenever two values of one property differ in length."""
+    rule = "R-C04-prop-accounting"
+    nfn = 0
+    for rb in sorted(prog.A.values(), key=lambda b: b.id):
+        if not rb.id.startswith(pre) or not rb.id.endswith("::read") or rb.kind not in ("Fn", "AssocFn"):
+            continue
+        reads = {}
+        for bb, t in rb.calls():
+            if not rb.is_cleanup(bb) and re.search(r"read_mqtt_(string|bytes)$", callee_path(t)):
+                reads[id(t)] = (bb, t)
+        if not reads:
+            continue
+        # the counter: a local that is repeatedly incremented by len()-bearing sums
+        accounted = {}
+        incs = 0
+        problems = []
+        for bi, blk in enumerate(rb.blocks):
+            if blk.get("cleanup"):
+                continue
+            for st in blk["s"]:
+                if "lhs" not in st or st["rv"]["k"] != "bin" or st["rv"]["op"] not in ("Add", "AddWithOverflow"):
+                    continue
+                la = op_local(st["rv"]["a"])
+                if la is None or (op_place(st["rv"]["a"]) or {}).get("p") or not rb.locals[la].get("n"):
+                    continue      # only `counter += <sum>` on a named local, not the partial sums
+                leaves = flatten_src(provenance(rb, st["rv"]["b"]))
+                lens = [x for x in leaves if x.kind == "call" and re.search(r"(String|Bytes)::len$", x.path)]
+                if not lens:
+                    continue
+                twos = [x for x in leaves if x.kind == "const" and x.v == 2]
+                others = [x for x in leaves if x not in lens and x not in twos]
+                incs += 1
+                srcs = []
+                for x in lens:
+                    rs = [y for y in flatten_src(provenance(rb, x.term["args"][0], through_calls=[r"ops::Try>::branch$"])) if y.kind == "call" and id(y.term) in reads]
+                    srcs.append(id(rs[0].term) if len(rs) == 1 else None)
+                if None in srcs:
+                    problems.append((st, "a len() in the byte count does not belong to a value read in this function"))
+                elif len(set(srcs)) != len(srcs):
+                    problems.append((st, "the same value's len() is counted twice while another value read in the arm is not counted"))
+                elif len(twos) != len(lens) or others:
+                    problems.append((st, "the byte count does not add exactly one 2-byte length prefix per variable-length value"))
+                for s_ in srcs:
+                    if s_ is not None:
+                        accounted[s_] = accounted.get(s_, 0) + 1
+        if incs == 0:
+            continue          # reader without a consumed-bytes counter (fixed layout)
+        nfn += 1
+        for k, (bb, t) in reads.items():
+            if accounted.get(k, 0) != 1:
+                problems.append((None, "the value read at %s is counted %d times in the consumed-bytes counter" % (rb.loc(t.get("sp")), accounted.get(k, 0))))
+        label = "%s %s" % (name, rb.id[len(pre):])
+        if problems:
+            for st, msg in problems[:3]:
+                ctx.violation(rule, rb.id, "property byte accounting", "%s: %s" % (label, msg), site=rb.loc(st.get("sp")) if st else rb.fn_loc())
+        else:
+            ctx.ok(rule, rb.id, "%s: %d variable-length reads, each counted once with its length prefix" % (label, len(reads)), site=rb.fn_loc())
+    ctx.floor(rule, "property readers with a consumed-bytes counter in %s" % name, nfn, 8)
+
+
+def prop_len_accounting(ctx, prog, name, pre):
+    """writer side of the same accounting: a properties `len()` adds, per property, 1 (identifier) + 2 per string /
+    binary value + the value's len(); that is what `write()` emits (put_u8 + write_mqtt_string / write_mqtt_bytes)"""
+    rule = "R-C04-prop-accounting"
+    nfn = 0
+    for lb in sorted(prog.A.values(), key=lambda b: b.id):
+        if not lb.id.startswith(pre) or not lb.id.endswith("::len") or lb.kind not in ("Fn", "AssocFn"):
+            continue
+        wb = prog.A.get(lb.id[:-3] + "write")
+        rb = prog.A.get(lb.id[:-3] + "read")
+        if wb is None or rb is None or not any(re.search(r"::property$", callee_path(t)) for _, t in rb.calls()):
+            continue      # only properties blocks (their reader dispatches on property(id))
+        problems = []
+        incs = 0
+        for bi, blk in enumerate(lb.blocks):
+            if blk.get("cleanup"):
+                continue
+            for st in blk["s"]:
+                if "lhs" not in st or st["rv"]["k"] != "bin" or st["rv"]["op"] not in ("Add", "AddWithOverflow"):
+                    continue
+                la = op_local(st["rv"]["a"])
+                if la is None or (op_place(st["rv"]["a"]) or {}).get("p") or not lb.locals[la].get("n"):
+                    continue
+                leaves = flatten_src(provenance(lb, st["rv"]["b"]))
+                lens = [x for x in leaves if x.kind == "call" and re.search(r"(String|Bytes|str|Vec::<T, A>)::len$|str>::len$", x.path)]
+                if not lens:
+                    continue
+                incs += 1
+                twos = [x for x in leaves if x.kind == "const" and x.v == 2]
+                ones = [x for x in leaves if x.kind == "const" and x.v == 1]
+                others = [x for x in leaves if x not in lens and x not in twos and x not in ones]
+                if len(twos) != len(lens) or len(ones) != 1 or others:
+                    problems.append(st)
+        if incs == 0:
+            continue
+        nfn += 1
+        label = "%s %s" % (name, lb.id[len(pre):])
+        if problems:
+            for st in problems[:4]:
+                ctx.violation(rule, lb.id, "property length accounting",
+                              "%s: a property's contribution is not 1 (id) + 2 per string/binary value + len(): len()/size() disagree with the bytes write() emits" % label, site=lb.loc(st.get("sp")))
+        else:
+            ctx.ok(rule, lb.id, "%s: every string/binary property contributes 1 + 2 + len()" % label, site=lb.fn_loc())
+    ctx.floor(rule, "properties len() functions with variable-length values in %s" % name, nfn, 8)
+    # packet-level len(): the properties block is preceded by its own varint length
+    plen = set()
+    for lb in prog.A.values():
+        if lb.id.startswith(pre) and lb.id.endswith("::len"):
+            rb = prog.A.get(lb.id[:-3] + "read")
+            if rb is not None and any(re.search(r"::property$", callee_path(t)) for _, t in rb.calls()):
+                plen.add(lb.id)
+    users = 0
+    for body in sorted(prog.A.values(), key=lambda b: b.id):
+        if not body.id.startswith(pre) or body.name not in ("len",) or body.id in plen:
+            continue
+        calls = [(bb, t) for bb, t in body.calls() if callee_path(t) in plen and not body.is_cleanup(bb)]
+        if not calls:
+            continue
+        users += 1
+        lls = [t for bb, t in body.calls() if re.search(r"::len_len$", callee_path(t)) and not body.is_cleanup(bb)]
+        bad = []
+        for bb, t in calls:
+            if not any(any(x.kind == "call" and x.term is t for x in flatten_src(provenance(body, l_["args"][0]))) for l_ in lls):
+                bad.append(t)
+        if bad:
+            ctx.violation(rule, body.id, "properties length prefix", "%s %s: the packet's len() adds the properties' byte count without len_len(properties_len), the width of the varint that precedes them" % (name, body.id[len(pre):]), site=body.loc(bad[0].get("sp")))
+        else:
+            ctx.ok(rule, body.id, "%s %s: len() adds len_len(properties_len) + properties_len" % (name, body.id[len(pre):]), site=body.fn_loc())
+    ctx.floor(rule, "packet len() functions that include a properties block in %s" % name, users, 8)
